@@ -192,6 +192,39 @@ def value_scaling(pid):
     return f
 
 
+def c17_limits(op, impl, model):
+    """an operation the exact accounting refuses for a cap / utilisation reason goes through in the implementation"""
+    kind = op.split(" ", 1)[0]
+    if not (impl.startswith("ok") and model.startswith("err ")):
+        return None
+    code = model.split()[1]
+    if kind in ("w.dep", "ix.dep") and code == "6003":
+        return (f"C17 a deposit SUCCEEDED that brings the bank's total deposits to or above its deposit limit (as the limit applies to this bank's balance units; "
+                f"the exact accounting refuses it with BankAssetCapacityExceeded): {op}")
+    if kind in ("w.bor", "ix.bor") and code == "6027":
+        return f"C17 a borrow SUCCEEDED that brings the bank's total debt to or above its borrow limit (BankLiabilityCapacityExceeded expected): {op}"
+    if kind in ("w.bor", "ix.bor", "w.wd", "ix.wd", "w.wdall") and code == "6026":
+        return f"C17 a {'borrow' if 'bor' in kind else 'withdrawal'} SUCCEEDED that leaves the bank's total deposits below its total debt (IllegalUtilizationRatio expected): {op}"
+    return None
+
+
+def c20_fail_closed(op, impl, model):
+    """an integration conversion returns a value where the exact arithmetic leaves the integer type (or divides by zero)"""
+    if not op.startswith("ig.") or not impl.startswith("some") or model.strip() != "none":
+        return None
+    a = op.split()
+    if a[0] == "ig.dwd" and len(a) == 4:
+        d, cum, scaled = int(a[1]), int(a[2]), int(a[3])
+        if 0 <= d <= 19:
+            exact = scaled * cum // (10 ** (19 - d))
+            if exact > 18446744073709551615:
+                return (f"C20 Drift get_withdraw_token_amount({scaled} scaled units, cumulative interest {cum}, {d} decimals) returned {impl.split()[1]} although the exact "
+                        f"token amount {exact} does not fit a u64: a wrapped value instead of an error")
+            return None
+    return (f"C20 an integration conversion returned {impl} where the exact arithmetic overflows its integer type or divides by zero "
+            f"(it must report an error, not a wrapped value): {op}")
+
+
 WITNESS = {
     "C04": [c04_health, emode_dupes("C04")],
     "C13": [emode_dupes("C13"), accepted_invalid_curve("C13")],
@@ -202,6 +235,8 @@ WITNESS = {
     "C09": [c09_health],
     "C16": [c16_foc],
     "C03": [ixf_tokens("C03")],
+    "C17": [c17_limits],
+    "C20": [c20_fail_closed],
     "C01": [ixf_tokens("C01")],
 }
 
